@@ -615,8 +615,17 @@ def analyze(ctx, want):
             if ok:
                 mi_ = re.search(r"(item@bb\d+)", S.fstr(fp[1][2])) if fp and len(fp[1]) > 2 else None
                 item = mi_.group(1) if mi_ else "?"
-                ok = S.fstr(argval(rc[0], 0)).lstrip("&*") == item + ".dfa" and "self.character_classes" in S.fstr(argval(rc[0], 2)) and S.mentions(argval(rc[0], 3), lambda x: x == ("field", ("downcast", fc[0][4], "Ok"), "0")) or (len(rc) == 1 and S.fstr(argval(rc[0], 0)).lstrip("&*") == item + ".dfa" and "self.character_classes" in S.fstr(argval(rc[0], 2)))
-            ob("C18.a", "each-mode-rendered-into-its-own-file", bool(ok), "compiled_dfa_render(%s, .., %s, ..)" % (S.fstr(argval(rc[0], 0))[:40] if rc else None, S.fstr(argval(rc[0], 2))[:40] if rc else None), gd.loc())
+                # the sink is the file created for this very mode (behind references / a wrapper built around it): a sink that
+                # outlives the iteration — a buffer shared by all modes — carries one mode's text into the next mode's file
+                filev = ("field", ("downcast", fc[0][4], "Ok"), "0")
+                sink = argval(rc[0], 3)
+                n_ = 0
+                while sink[0] == "ref" and n_ < 4 and not S.mentions(sink, lambda x: x == filev):
+                    sink = ex.deref_val(p, sink)
+                    n_ += 1
+                ok_sink = S.mentions(sink, lambda x: x == filev)
+                ok = S.fstr(argval(rc[0], 0)).lstrip("&*") == item + ".dfa" and "self.character_classes" in S.fstr(argval(rc[0], 2)) and ok_sink
+            ob("C18.a", "each-mode-rendered-into-its-own-file", bool(ok), "compiled_dfa_render(%s, .., %s, sink %s) for the file of %s" % (S.fstr(argval(rc[0], 0))[:40] if rc else None, S.fstr(argval(rc[0], 2))[:40] if rc else None, S.fstr(argval(rc[0], 3))[:50] if rc else None, item if rc else None), gd.loc())
     ob("C18.d", "all-outcomes", {"io-err", "io-ok", "done"} <= seen, "outcomes %s" % sorted(seen), gd.loc())
     its = [M.call_name(t) for bb, t in gd.calls(ADAPTERS)]
     srcs = [s_ for _, s_ in loop_sources(ex, paths)]
